@@ -31,6 +31,7 @@ RULES = [
     Rule('C03.T1', 'const_* methods request the constant of their own name; table entry exists', E.t_constants, 14, 'T'),
     Rule('C03.F1', 'round-to-odd wrapper: RoundToZero, prec+2 digits, ternary of the fixed value, sticky fold', E.f1_round_to_odd, 12, 'F'),
     Rule('C03.F2', 'every callable handed to the wrapper is a single MPFR operation (ternary describes the whole value)', E.f2_single_operation('C03'), 35, 'F'),
+    Rule('C03.S3', 'local MPFR wrappers compute the operation they are named after (neg, abs, pow, lgamma = first component of gmp.lgamma)', E.s3_wrapper_primitives, 4, 'S,T'),
     Rule('C03.F3', 'round_params widens the engine precision by the stochastic bits in every family', E.f3_round_params, 10, 'S'),
 ]
 
@@ -40,6 +41,9 @@ OPS, GMP, GU = E.OPS, E.GMP, E.GMPUTILS
 CTX = 'fpy2/number/context/'
 
 MUTANTS = [
+    Mutant('lgamma-is-log-of-gamma', GMP, "    y, _ = gmp.lgamma(x)\n    return y", "    return gmp.lngamma(x)", 'C03.S3',
+           'seeded change C03b: lgamma(-0.5) becomes NaN (gamma is negative there)'),
+    Mutant('lgamma-returns-the-sign', GMP, "    y, _ = gmp.lgamma(x)\n    return y", "    _, y = gmp.lgamma(x)\n    return y", 'C03.S3'),
     Mutant('atan2-operands-swapped', OPS, 'r = engine.atan2(yr, xr, ctx)', 'r = engine.atan2(xr, yr, ctx)', 'C03.S1'),
     Mutant('log2e-dispatches-to-log10e', OPS, 'r = engine.const_log2e(ctx)', 'r = engine.const_log10e(ctx)', 'C03.S1'),
     Mutant('exp-rounded-twice', OPS, 'r = engine.exp(xr, ctx)\n        if r is not None:\n            return _normalize(r, ctx, (xr,))',
